@@ -66,6 +66,8 @@ RULES = {
     'R-ZEROTABLE': generic_rules.r_zerotable,
     'R-LEAKVAR': generic_rules.r_leakvar,
     'R-STRSORT': generic_rules.r_strsort,
+    'R-FMTDATA': generic_rules.r_fmtdata,
+    'R-COUNTERUNION': generic_rules.r_counterunion,
 }
 
 
@@ -101,8 +103,9 @@ EDITORS = ('transform.punctuation_delete', 'transform.ptb_delete_traces', 'trans
 
 PROPS = {
     'C01': {
-        'rules': ['R-AUTOMATON', 'R-READER-STATE', 'R-LINK', 'R-SIBLING', 'R-OPTKEY', 'R-ENC', 'R-ROOTSCAN', 'R-NODELINE'],
-        'filter': {'R-LINK': site('treeinput.', 'trees.Tree'),
+        'rules': ['R-AUTOMATON', 'R-READER-STATE', 'R-LINK', 'R-SIBLING', 'R-OPTKEY', 'R-ENC', 'R-ROOTSCAN', 'R-NODELINE', 'R-STATE'],
+        'filter': {'R-STATE': both(rule('R-STATE/G1'), site('treeinput', 'misc', 'trees')),
+                   'R-LINK': site('treeinput.', 'trees.Tree'),
                    'R-OPTKEY': site('treeinput.', 'trees.parse_label'),
                    'R-ENC': either(rule('R-ENC/GUNZIP'), site('treeinput.'))},
         'explanation': 'Decides, for the readers: the hand-written bracket lexer and 7-state reader conform to the '
@@ -112,15 +115,16 @@ PROPS = {
                        'gf_split / gf_separator / replace_parens / continuous / quiet have the same code in every '
                        'format; option keys are literal, tested before use and forwarded; every reader gunzips; the TIGER root is '
                        'searched among all nodes. '
-                       'Also: the export node-line test is exactly `#` + three digits. Does NOT decide: export field splitting, TIGER id-ref resolution, character decoding.',
+                       'Also: the export node-line test is exactly `#` + three digits; readers and gunzip keep no state between calls (what is read is the file as it is now). Does NOT decide: export field splitting, TIGER id-ref resolution, character decoding.',
     },
     'C02': {
         'rules': ['R-ESC', 'R-VOCAB', 'R-NONE', 'R-GUARD', 'DECOR', 'R-EXPNUM', 'R-LEVELS', 'R-TABS', 'R-ORDERED',
-                  'R-OPTKEY', 'R-FRAME', 'R-STATE', 'R-DISCONT'],
+                  'R-OPTKEY', 'R-FRAME', 'R-STATE', 'R-DISCONT', 'R-NODELINE'],
         'filter': {'R-DISCONT': site('treeanalysis.gap_degree'),
                    'R-GUARD': rule('R-GUARD/BRACKETS'),
                    'R-FRAME': both(rule('R-FRAME/PURE'), site('treeanalysis.gap_degree', 'trees.')),
                    'R-STATE': both(rule('R-STATE/G6'), site('treeoutput.')),
+                   'R-NODELINE': site('trees.replace_chars'),
                    'R-ORDERED': either(rule('R-ORDERED/DEF'), site('treeoutput.')),
                    'R-OPTKEY': site('treeoutput.', 'trees.get_label')},
         'explanation': 'Decides, for the writers: XML attribute values are escaped and tokens are paren-mapped before '
@@ -128,11 +132,11 @@ PROPS = {
                        'fields are defaulted before use; the bracket writer writes only under gap degree 0 and '
                        'raises/skips otherwise; each label decoration depends on its own option and all returns of '
                        'get_label carry all decorations in order; export numbers are a counter from 500 over ascending '
-                       'levels, left to right, root 0; field separators are never empty. Also: gap degree purity and gap predicate (the bracket guard relies on them), writer purity, label written after paren mapping. Does NOT decide: that an '
+                       'levels, left to right, root 0; field separators are never empty. Also: gap degree purity and gap predicate (the bracket guard relies on them), writer purity, label written after paren mapping; the paren mapping applies every entry of its table. Does NOT decide: that an '
                        'independent decoder recovers the tree, tab-stop widths, terminals output text.',
     },
     'C03': {
-        'rules': ['R-FRAMEFILE', 'R-DISPATCH', 'R-ENC', 'R-NONE', 'R-VOCAB', 'R-AUTOMATON', 'R-OPTKEY', 'R-READER-STATE', 'R-DIRMODE', 'R-OPENMODE', 'R-SIBLING', 'R-OPTSIDE', 'R-PERTREE', 'R-NODELINE', 'DECOR', 'R-TABS', 'R-LINK'],
+        'rules': ['R-FRAMEFILE', 'R-DISPATCH', 'R-ENC', 'R-NONE', 'R-VOCAB', 'R-AUTOMATON', 'R-OPTKEY', 'R-READER-STATE', 'R-DIRMODE', 'R-OPENMODE', 'R-SIBLING', 'R-OPTSIDE', 'R-PERTREE', 'R-NODELINE', 'DECOR', 'R-TABS', 'R-LINK', 'R-ESC'],
         'filter': {'R-LINK': site('treeinput.'),
                    'R-PERTREE': site('transform.run'),
                    'R-OPTSIDE': site('transform.run'),
@@ -145,7 +149,7 @@ PROPS = {
                        '<fmt>_begin/_end on every path, encodings reach every open and gzip is undone byte-exactly, '
                        'trees from field-poor formats can be written (None defaults), own reader/writer agree on XML '
                        'vocabulary and on the discobracket index convention, options are forwarded, reader state is reset per '
-                       'sentence, directory mode converts every member, output is opened for writing. Also: readers get --src-opts and writers --dest-opts at every dispatch site; gf_split re-assembly agrees across readers; lexer actions; label decorations; per-tree steps do not depend on the sentence counter; export field separators are never empty; readers pair every attach with the parent pointer (writers follow both). Does NOT decide: '
+                       'sentence, directory mode converts every member, output is opened for writing. Also: readers get --src-opts and writers --dest-opts at every dispatch site; gf_split re-assembly agrees across readers; lexer actions; label decorations; per-tree steps do not depend on the sentence counter; export field separators are never empty; readers pair every attach with the parent pointer (writers follow both); what the TIGER-XML writer puts into attribute values is quoted. Does NOT decide: '
                        'losslessness of a round trip.',
     },
     'C04': {
@@ -168,7 +172,8 @@ PROPS = {
                    'R-KEEP': site('transform.boyd_split', 'transform.raising'),
                    'R-DISCONT': site('transform.boyd_split', 'trees.terminal_blocks', 'treeanalysis.gap_degree_node'),
                    'R-FRAME': site('transform.boyd_split', 'transform.raising'),
-                   'R-ORDERED': both(rule('R-ORDERED/RAW'), site('transform.', 'trees.')),
+                   'R-ORDERED': either(both(rule('R-ORDERED/RAW'), site('transform.', 'trees.')),
+                                       both(rule('R-ORDERED/DEF'), site('trees.children', 'trees.terminals'))),
                    'R-HEADS': rule('R-HEADS/MARK', 'R-HEADS/RANGE')},
         'explanation': 'Decides: link pairing at the split/raise sites; one copy node per block with split/head/'
                        'head_block/block_number set unconditionally; defaults on every visited node; the head-block '
@@ -273,12 +278,13 @@ PROPS = {
                        'the set-based reference.',
     },
     'C13': {
-        'rules': ['R-FRAME', 'R-LINK', 'R-KEEP', 'R-PUNCTSEL', 'R-STALE', 'R-SYMTARGET', 'R-LITERALS'],
-        'filter': {'R-LITERALS': site('trees.'),
+        'rules': ['R-FRAME', 'R-LINK', 'R-KEEP', 'R-PUNCTSEL', 'R-STALE', 'R-SYMTARGET', 'R-LITERALS', 'R-STATE'],
+        'filter': {'R-STATE': both(rule('R-STATE/G1', 'R-STATE/G7'), site('transform', 'trees')),
+                   'R-LITERALS': site('trees.'),
                    'R-FRAME': site(*PUNCT), 'R-LINK': site(*PUNCT), 'R-KEEP': site(*PUNCT), 'R-STALE': site(*PUNCT)},
         'explanation': 'Decides: only tokens filtered by trees.PUNCT / PAIRPUNCT are moved; the moved set is '
                        'restricted by the documented conditions only; links are paired; no constituent is emptied '
-                       '(guard at move time); targets are read from .parent in the moving iteration. Also: the candidate loops are never left early; position bound; guard inventory covers the moved inventory. Does NOT decide: '
+                       '(guard at move time); targets are read from .parent in the moving iteration. Also: the candidate loops are never left early; position bound; guard inventory covers the moved inventory; the anchor selections with and without relc use the same inventory; no list shared between calls, no move in set order. Does NOT decide: '
                        'that the new parent is the documented one.',
     },
     'C14': {
@@ -300,7 +306,7 @@ PROPS = {
                        'parent pointers. Also: walkers return early only for nodes without children; dead presence checks; labels are rebuilt from their current content. Does NOT decide: reversibility.',
     },
     'C15': {
-        'rules': ['R-HEADS', 'R-STATE', 'R-ORDERED', 'R-LITERALS', 'R-MEMO'],
+        'rules': ['R-HEADS', 'R-STATE', 'R-ORDERED', 'R-LITERALS', 'R-MEMO', 'R-LABELSPLIT'],
         'filter': {'R-LITERALS': site('transformconst.'),
                    'R-MEMO': site('transformconst', 'transform', 'trees'),
                    'R-STATE': both(rule('R-STATE/G1'), site('transformconst', 'transform.negra_mark_heads',
@@ -311,7 +317,7 @@ PROPS = {
                        'character); every loop can reach its next iteration and both directions have the same exits; '
                        'returned positions are child indices; categories compared lower-case and undecorated; both '
                        'markers give exactly one True per constituent and False to the root; NeGra index definitions '
-                       'and guards; presets and rejections; no state between calls. What remains is table content.',
+                       'and guards; presets and rejections; no state between calls. Also: how parse_label takes the decorations off (each cut at the position that was tested, head marker first), since the rules compare undecorated categories; the head index is chosen per constituent. What remains is table content.',
     },
     'C16': {
         'rules': ['R-DISCONT', 'R-ACCUM', 'R-FRAME', 'R-DISCOORDER', 'R-GUARD', 'R-ORDERED', 'R-REPORT', 'R-STATE', 'R-MEMO', 'R-LEAFGUARD', 'R-OPTSIDE', 'R-PERTREE'],
@@ -342,8 +348,9 @@ PROPS = {
                        'Also: option sides; sign check inside the part loop; index-or-None tests. Does NOT decide: the sum arithmetic itself.',
     },
     'C18': {
-        'rules': ['R-STATE', 'R-READER-STATE', 'R-ARITY', 'R-FRAME', 'R-ACCUM', 'R-MEMO', 'R-FRAMEFILE', 'R-PERTREE'],
-        'filter': {'R-PERTREE': site('transform.run', 'grammar.run', 'transitions.run', 'treeanalysis.run'),
+        'rules': ['R-STATE', 'R-READER-STATE', 'R-ARITY', 'R-FRAME', 'R-ACCUM', 'R-MEMO', 'R-FRAMEFILE', 'R-PERTREE', 'R-SORTEDPOS'],
+        'filter': {'R-SORTEDPOS': (lambda o: str(getattr(o, 'construct', '') or '').startswith('clausectr')),
+                   'R-PERTREE': site('transform.run', 'grammar.run', 'transitions.run', 'treeanalysis.run'),
                    'R-ACCUM': either(rule('R-ACCUM/TASK', 'R-ACCUM/EXTRACT'), site('grammar.extract', 'grammar.binarize')),
                    'R-FRAMEFILE': rule('R-FRAMEFILE/ONCE'),
                    'R-ARITY': rule('R-ARITY/UNIQUE'), 'R-FRAME': rule('R-FRAME/PURE')},
@@ -352,7 +359,7 @@ PROPS = {
                        'caches are written only while loading and dropped completely; writers leave node content and '
                        'the caller\'s grammar as found (None-defaulting, #NNN on constituents, save/restore excepted); no '
                        'output loop over a set except the .start file; readers reset per-sentence state after each '
-                       'yield; label generators are per call. Also: accumulation in extract / binarize; per-tree steps; dropped trees never reach a writer; no transformation moves nodes in the order of a set of nodes (node ids). Does NOT decide: additivity as an equation.',
+                       'yield; label generators are per call. Also: accumulation in extract / binarize; per-tree steps; dropped trees never reach a writer; no transformation moves nodes in the order of a set of nodes (node ids); how a grammar writer renders one clause does not depend on the clauses written before it (per-clause counters). Does NOT decide: additivity as an equation.',
     },
     'C19': {
         'rules': ['R-ORDERED', 'R-LEVELS', 'R-EXPNUM', 'R-NAV', 'R-LEAFGUARD', 'R-FRAME', 'R-STATE', 'R-MEMO'],
@@ -369,21 +376,22 @@ PROPS = {
                        'Also: both level tables are filled together; dominance() yields the node first; no attribute caches on nodes; early returns only for nodes without children. Does NOT decide: the least common ancestor, the level arithmetic.',
     },
     'C20': {
-        'rules': ['DECOR', 'R-OPTKEY', 'R-LABELFIELDS', 'R-LABELSPLIT', 'R-STATE', 'R-MEMO'],
-        'filter': {'R-STATE': both(rule('R-STATE/G1'), site('trees')),
+        'rules': ['DECOR', 'R-OPTKEY', 'R-LABELFIELDS', 'R-LABELSPLIT', 'R-STATE', 'R-MEMO', 'R-FRAME'],
+        'filter': {'R-FRAME': both(rule('R-FRAME/PURE'), site('trees.format_label', 'trees.parse_label', 'trees.get_label')),
+                   'R-STATE': both(rule('R-STATE/G1'), site('trees')),
                    'R-MEMO': site('trees'),
                    'R-OPTKEY': site('trees.')},
         'explanation': 'Decides: every rebinding of the label in parse_label is a prefix slice whose remainder was '
                        'recorded (one separator character dropped), indices are split at the last separator and only '
                        'if numeric, the trace test; format_label reads each component parse_label stores, glues the '
                        'function with the recorded separator, suppresses the two default literals unless asked; option '
-                       'keys are literal; output decorations follow their options. Also: gap index and co-index are both kept; the default switches are the documented options; placeholder test against the literal \'-\'. Does NOT decide: the inverse property '
+                       'keys are literal; output decorations follow their options. Also: gap index and co-index are both kept; the default switches are the documented options; placeholder test against the literal \'-\'; formatting and parsing leave the label object / node they are given unchanged; the default category is applied after the last component is stripped. Does NOT decide: the inverse property '
                        'over all strings.',
     },
 }
 
 # generic misuse patterns (ttsa/rules/generic_rules.py) are looked for in the functions each property is anchored in
-GENERIC = ['R-SUBSTR', 'R-DEADCHECK', 'R-FALSYZERO', 'R-DICTCOMP', 'R-STALEACC', 'R-ZEROTABLE', 'R-LEAKVAR', 'R-STRSORT']
+GENERIC = ['R-SUBSTR', 'R-DEADCHECK', 'R-FALSYZERO', 'R-DICTCOMP', 'R-STALEACC', 'R-ZEROTABLE', 'R-LEAKVAR', 'R-STRSORT', 'R-FMTDATA', 'R-COUNTERUNION']
 PROP_SITES = {
     'C01': ('treeinput.', 'trees.parse_label', 'misc.'),
     'C02': ('treeoutput.', 'trees.get_label', 'treeanalysis.gap'),
